@@ -1013,6 +1013,11 @@ func (fr *Frame) callModsInto(ms *modSet, call *ssa.CallCommon) {
 			ms.add(m)
 			return
 		}
+		if strings.HasSuffix(cv.String(), "unix.Syscall") || strings.HasSuffix(cv.String(), "unix.RawSyscall") {
+			if trap, ok := constIntOf(call.Args[0]); ok && (trap == 1 || trap == 20) {
+				return // SYS_WRITE / SYS_WRITEV do not write user memory
+			}
+		}
 		if eff := externEffect(cv); eff != nil {
 			for _, k := range eff {
 				if k == "*" {
@@ -1376,6 +1381,15 @@ func (fr *Frame) unop(s *ssa.UnOp) {
 				c.fact(eq(reg, num(int64(-500-len(g.Name())*7-int(g.Name()[0])))))
 				n := num(fr.x.e.tableLen[g.Name()])
 				fr.env[s] = app("mk-slice", reg, "0", n, n)
+				return
+			}
+		}
+		if g, ok := s.X.(*ssa.Global); ok && g.Pkg != fr.x.e.pkg {
+			if types.Identical(ptrElem(g.Type()), types.Universe.Lookup("error").Type()) {
+				// exported error values of other packages (io.EOF, ...) are non-nil and never reassigned (trusted)
+				t := c.declareNamed("gerr."+g.Pkg.Pkg.Name()+"."+g.Name(), "Int")
+				c.fact(lt("100000", t))
+				fr.env[s] = t
 				return
 			}
 		}
